@@ -132,6 +132,15 @@ func main() {
 			r.Notes = append(r.Notes, bc.String()+": "+strings.Join(c.RenameNotes, "; "))
 		}
 		start := len(r.Obs)
+		if os.Getenv("RARECHECK_FORCE_VIEW") != "" {
+			// maintenance: analyse the normalised view itself, to see what it fails on
+			if nc, n, err := LoadNormalised(c); nc != nil {
+				fmt.Fprintf(os.Stderr, "analysing the normalised view (%d expansions)\n", n)
+				c = nc
+			} else {
+				fmt.Fprintln(os.Stderr, "no normalised view:", err)
+			}
+		}
 		func() {
 			defer func() {
 				if e := recover(); e != nil {
@@ -220,6 +229,16 @@ func secondOpinion(pd *propDef, c *Ctx, r *Report, start int, verif string) {
 	for _, o := range r2.Obs {
 		if o.Rule == "harness" {
 			return // the view could not be analysed: keep the original verdict
+		}
+	}
+	if os.Getenv("RARECHECK_DEBUG") != "" {
+		for rule := range failing {
+			fmt.Fprintf(os.Stderr, "second opinion: %s instances=%d bad=%d floor=%d/%d\n", rule, cnt2[rule], bad2[rule], r.floors[rule], r2.floors[rule])
+			for _, o := range r2.Obs {
+				if o.Rule == rule && o.Status != "discharged" {
+					fmt.Fprintf(os.Stderr, "   %s %s %s %s\n", o.Status, o.Key, o.Pos, o.Detail)
+				}
+			}
 		}
 	}
 	var kept []Ob
